@@ -4,18 +4,21 @@ from vcheck import *
 
 F08_SIG = {"kind": "dangling-funcref-private-table", "witness": "F08"}
 F08B_SIG = {"kind": "dangling-funcref-imported-global", "witness": "F08b"}
+MEMFREE_SIG = {"kind": "shared-memory-freed-on-close", "witness": "MEMFREE"}
 ORDINARY = ("e:exit:", "e:refused", "e:nohandle")
 
 
 def pairs(l): return "[" + "; ".join("(%d, %d)" % (a, b) for a, b in (l or [])) + "]"
 
 
+def nimprec(q): return len(q.get("impf") or []) + len(q.get("imps") or []) + len(q.get("impa") or [])
+
+
 def coq_mod(mods, m):
     impf = list(m.get("impf") or [])
-    for (m2, _t) in (m.get("imps") or []):
-        # an imported store function is a function record of m2: any own record has the same code owner
-        q = mods[m2]
-        impf.append([m2, len(q.get("impf") or []) + len(q.get("imps") or [])])
+    for (m2, _t) in (m.get("imps") or []) + (m.get("impa") or []):
+        # an imported store function / memory accessor is a function record of m2: any own record has the same code owner
+        impf.append([m2, nimprec(mods[m2])])
     return "mkM %s %s %d %d %d %d %d [%s] 0 []" % (pairs(impf), pairs(m.get("impt")), m["nfun"], m["nexp"], m["npriv"], m["nglob"], m["size"],
                                                    "; ".join("(%d, %d, %d)" % tuple(e) for e in (m.get("elems") or [])))
 
@@ -43,6 +46,12 @@ def coq_op(h, o):
         m2, t = h["mods"][a[0]]["imps"][a[2]]
         return "HPass %d %d %d %d %d" % (a[0], a[1], m2, t, sl(m2, t, a[3]))
     if k == "enter": return "HEnter %d" % a[0]
+    # shared memory / global accessors: an exported call of own code, or of the wrapper of an imported accessor (the
+    # record of that import); the host's api.Memory access is no call at all (own record: never dangling while held)
+    def accrec(m, p): return nimprec(mods[m]) if p < 0 else len(mods[m].get("impf") or []) + len(mods[m].get("imps") or []) + p
+    if k == "mu": return "HCallExport %d %d" % (a[0], accrec(a[0], a[1]))
+    if k == "mh": return "HCallExport %d %d" % (a[0], nimprec(mods[a[0]]))
+    if k == "leavem": return "HLeaveRec %d %d" % (a[0], accrec(a[0], a[1]))
     if k == "leaver": return "HLeaveRec %d %d" % tuple(a)
     if k == "leavei": return "HLeaveInd %d %d %d" % tuple(a)
     if k == "closemod": return "HCloseMod %d" % a[0]
@@ -81,6 +90,126 @@ def classify(hs):
     return preds, ""
 
 
+# ---- shared memories: coq/Engine/LifetimeMem.v ----
+AK = ["KSize", "KLoad", "KStore", "KGrow", "KGGet", "KGSet", "KGrowSt"]
+
+
+def has_mem(h): return any(m.get("mem") or m.get("impm") or m.get("gi") or m.get("impgi") or m.get("impa") for m in h["mods"])
+
+
+def coq_mmod(m):
+    def src(own, imp): return "SOwn" if own else ("(SImp %d)" % imp[0] if imp else "SNone")
+    return "mkMM %s false 4 %s [%s]" % (src(m.get("mem"), m.get("impm")), src(m.get("gi"), m.get("impgi")),
+                                        "; ".join("(%d%%nat, %s)" % (j, AK[k]) for j, k in (m.get("impa") or [])))
+
+
+def coq_mop(h, i, o, pred):
+    k, a = o[0], list(o[1:])
+    def path(p): return "None" if p < 0 else "(Some %d%%nat)" % p
+    if k == "inst": return "MInst %d" % a[0] if pred[i] == 0 else "MNop"       # whether an instantiation succeeds: Lifetime.classify
+    if k == "closemod": return "MClose %d" % a[0]
+    if k == "closert": return "MCloseAll" if pred[i] == 0 else "MNop"          # not performed once the runtime handle is dropped
+    if k == "dropmod": return "MDrop %d" % a[0]
+    if k == "gc": return "MGc"
+    if k == "enter": return "MEnter %d" % a[0]
+    if k in ("leaver", "leavei"): return "MLeave None KSize 0 0"               # the call in flight ends; no memory access
+    if k == "leavem": return "MLeave %s %s %d %d" % (path(a[1]), AK[a[2]], a[3], a[4])
+    if k == "mu": return "MUse %d %s %s %d %d" % (a[0], path(a[1]), AK[a[2]], a[3], a[4])
+    if k == "mh": return "MHost %d %s %d %d" % (a[0], AK[a[1]], a[2], a[3])
+    return "MNop"
+
+
+def mclassify(hs):
+    """LifetimeMem.mclassify: one (class, value) pair per step of every history with a shared memory / global"""
+    res = {}
+    todo = [h for h in hs if has_mem(h)]
+    SH = 60
+    for s in range(0, len(todo), SH):
+        part = todo[s:s + SH]
+        v = ("From Verif Require Import Engine.Lifetime Engine.LifetimeMem.\nFrom Coq Require Import List ZArith.\nImport ListNotations.\nOpen Scope Z_scope.\n"
+             "Definition cases : list mcase := [\n" +
+             ";\n".join("([%s], [%s])" % ("; ".join(coq_mmod(m) for m in h["mods"]),
+                                           "; ".join(coq_mop(h, i, o, h["pred"]) for i, o in enumerate(h["ops"]))) for h in part) + "].\n"
+             "Definition M := Eval vm_compute in map mclassify cases.\nPrint M.\n")
+        rc, o = coq_eval("c09m_%d" % s, v)
+        m = re.search(r"M\s*=\s*(\[.*\])\s*:\s*list", o, re.S)
+        if rc != 0 or not m:
+            return None, o
+        body = re.sub(r"%[A-Za-z]+", "", m.group(1)).replace("\n", " ")
+        groups = re.findall(r"\[((?:\s*\(\s*-?\d+\s*,\s*-?\d+\s*\)\s*;?)*)\s*\]", body[1:-1])
+        if len(groups) != len(part):
+            return None, o
+        for h, g in zip(part, groups):
+            l = [(int(x), int(y)) for x, y in re.findall(r"\(\s*(-?\d+)\s*,\s*(-?\d+)\s*\)", g)]
+            if len(l) != len(h["ops"]):
+                return None, o
+            res[h["id"]] = l
+    return res, ""
+
+
+def mem_agrees(pred, a):
+    """does the engine's observation `a` agree with LifetimeMem's (class, value)?"""
+    cls, val = pred
+    if a.startswith("v:"): return cls == 0 and a == "v:%d" % val
+    if a == "ok": return cls == 4
+    if a == "e:oob": return cls == 3
+    if a.startswith(ORDINARY): return cls == 1
+    return False
+
+
+def mem_symptom(a, b):
+    if a == "e:oob": return "out-of-bounds for an address the twin can access"
+    if a == "v:1515870810": return "read of a freed, re-used buffer (0x5a5a5a5a churn pattern)"
+    if a.startswith("v:") and b.startswith("v:"): return "stale value / stale size"
+    return "other"
+
+
+def mem_dist(h, obs, dist):
+    """distribution counters of one executed history (observations of one engine)"""
+    mods = h["mods"]
+    def root(m):
+        while not mods[m].get("mem") and mods[m].get("impm"): m = mods[m]["impm"][0]
+        return m if mods[m].get("mem") else None
+    gen = [0] * len(mods); closed = set(); bound = {}; held = [False] * len(mods); rt = True
+    def definer_closed(m):       # the instance defining the memory that instance m (as bound at its instantiation) uses
+        b = bound.get(m)
+        if b is None: return False
+        r = b["root"]
+        return r is not None and r in closed
+    for i, o in enumerate(h["ops"][:len(obs)]):
+        k, a = o[0], o[1:]
+        if k == "inst" and obs[i] == "ok":
+            m = a[0]; gen[m] += 1; held[m] = True
+            src = mods[m].get("impm")
+            if mods[m].get("mem"): r = (m, gen[m])
+            elif src and bound.get(src[0]): r = bound[src[0]]["root"]
+            else: r = None
+            bound[m] = {"root": r, "self": (m, gen[m]),
+                        "acc": [(bound.get(j) or {}).get("self") for j, _ in (mods[m].get("impa") or [])],
+                        "accroot": [(bound.get(j) or {}).get("root") for j, _ in (mods[m].get("impa") or [])]}
+        elif k == "closemod" and held[a[0]] and bound.get(a[0]): closed.add(bound[a[0]]["self"])
+        elif k == "closert" and rt:
+            for b in bound.values(): closed.add(b["self"])
+        elif k == "droprt": rt = False
+        elif k == "dropmod": held[a[0]] = False
+        elif k in ("mu", "leavem", "mh") and not obs[i].startswith("e:nohandle"):
+            m = a[0]; b = bound.get(m) or {}
+            if k == "mh": p, kind, n = -1, a[1], a[2]
+            else: p, kind, n = a[1], a[2], a[3]
+            dist["mem_ops"] += 1
+            if k == "leavem": dist["mem_in_flight_leaves"] += 1
+            if k == "mh" and kind == 3: dist["host_grows"] += 1
+            r = (b.get("accroot") or [None])[p] if p >= 0 and p < len(b.get("accroot") or []) else b.get("root")
+            if kind in (3, 6) and n > 0 and r in closed and (obs[i].startswith("v:") and obs[i] != "v:4294967295" or obs[i].startswith("e:exit")):
+                dist["grows_after_definer_closed"] += 1
+            if kind < 4 or kind == 6:
+                via = (b.get("acc") or [None])[p] if p >= 0 and p < len(b.get("acc") or []) else (b.get("self") if k != "mh" else None)
+                if via in closed and via == r:
+                    dist["uses_through_closed_definer"] += 1
+                elif via in closed:
+                    dist["uses_through_closed_importer"] += 1
+
+
 def cut_of(h, p):
     """index of the first step that must not be executed (first dangling use; the enclosing in-flight block as a whole)"""
     ent = None
@@ -96,12 +225,16 @@ def run(tier, seed):
     ck.trusted += ["coq/Engine/Lifetime.v: hand-written heap-graph model (objects, visible/raw edges, instantiate/close/drop/gc); its visible edges were read off "
                    "wazevo/module_engine.go (parent, importedFunctions[i].me, localFunctionInstances), wazevo/engine.go (compiledModules, executables finalizer), interpreter.go, "
                    "wasm/store.go (moduleList, resolveImports), wasm/table.go (involvingModuleInstances) and are tied to the code only by the correspondence run",
+                   "coq/Engine/LifetimeMem.v: hand-written model of shared memories/globals (memory = current buffer + size, grow = new buffer, per-instance cached views refreshed by the grow "
+                   "notification, collector frees every buffer that is not the current buffer of a retained memory); read off wasm/memory.go Grow (ownerModuleEngine.MemoryGrown), "
+                   "wazevo/module_engine.go putLocalMemory / ResolveImportedMemory (only the definer caches base+length; importers go through the MemoryInstance) and tied to the code by the correspondence run: "
+                   "every value / trap / ordinary error of every memory step on both engines equals LifetimeMem.mclassify's",
                    "Go's collector, finalizers and munmap are runtime behaviour: exercised with forced collections in supervised child processes, not modelled beyond `gc`",
                    "harness/c09 (Go: wasm encoder, history generator, child supervision, twin runtime, heap churn) and checks/c09.py (case conversion, oracle)"]
     ck.assumptions += ["the model's gc is the most aggressive collector (everything not visibly reachable from host handles and in-flight calls); the real collector may keep more, which can hide but never cause a dangling use",
                        "where the engines differ the model keeps the fewer visible edges (wazevo function records have no pointer to their instance, the interpreter's GlobalInstance none to its engine)",
                        "a closed instance still executes (wazero consults Closed only when an exported call returns): modelled so; its results are compared as 'ordinary error'",
-                       "compiling after the engine behind a closed CompilationCache is not exercised (the compiler engine panics there: reported separately); memories are not part of the histories; "
+                       "compiling after the engine behind a closed CompilationCache is not exercised (the compiler engine panics there: reported separately); shared memories and i32 globals are modelled by Engine/LifetimeMem.v (one memory per module, word accesses at non-overlapping addresses, maximum 4 pages); "
                        "exported/imported funcref globals are modelled and proved about but appear in the run only as the fixed F08b witness",
                        "F08-class histories (a funcref placed by parameter into a holder that does not track its definer) are cut before the dangling use; the canonical F08 and F08b witnesses are executed in their own children"]
     proofs_ok = ck.proofs()
@@ -112,7 +245,7 @@ def run(tier, seed):
         return ck.finish()
     rc, out = sh([binp, "-gen", "-seed", str(seed), "-n", str(n)], timeout=120)
     hs = [json.loads(l) for l in out.split("\n") if l.startswith("{")]
-    if rc != 0 or len(hs) < n + 8:
+    if rc != 0 or len(hs) < n + 10:
         ck.violation("harness-crash", {"kind": "gen"}, {"rc": rc, "tail": out[-2000:]}, no_input=True)
         return ck.finish()
     # minimized regression histories are replayed first
@@ -134,7 +267,12 @@ def run(tier, seed):
         ck.violation("model-eval", {"kind": "model-eval"}, {"out": err[-3000:]}, no_input=True)
         return ck.finish()
     dist = {"histories": len(hs), "model_safe": 0, "model_F08_class": 0, "ops": {}, "pred": {0: 0, 1: 0, 2: 0}, "steps_executed": 0,
-            "obs": {"same_as_twin": 0, "ordinary_error": 0}, "in_flight_blocks": 0}
+            "obs": {"same_as_twin": 0, "ordinary_error": 0}, "in_flight_blocks": 0,
+            "shared_memory": {"histories_with_shared_memory": 0, "histories_with_shared_global": 0, "mem_ops": 0, "host_grows": 0,
+                              "grows_after_definer_closed": 0, "uses_through_closed_definer": 0, "uses_through_closed_importer": 0,
+                              "mem_in_flight_leaves": 0, "mem_steps_compared_with_model": 0,
+                              "model_class": {"value": 0, "ordinary_error": 0, "trap_oob": 0, "no_result": 0, "freed": 0}}}
+    md = dist["shared_memory"]
     for h, p in zip(hs, preds):
         h["pred"] = p
         if not h.get("witness"):
@@ -144,6 +282,13 @@ def run(tier, seed):
                 dist["ops"][o[0]] = dist["ops"].get(o[0], 0) + 1
                 if o[0] == "enter": dist["in_flight_blocks"] += 1
         for x in p: dist["pred"][x] += 1
+    for h in hs:
+        if any(m.get("mem") or m.get("impm") for m in h["mods"]): md["histories_with_shared_memory"] += 1
+        if any(m.get("gi") or m.get("impgi") for m in h["mods"]): md["histories_with_shared_global"] += 1
+    mpreds, err = mclassify([h for h in hs if not h.get("probe") and not h.get("witness")])
+    if mpreds is None:
+        ck.violation("model-eval", {"kind": "model-eval", "model": "LifetimeMem"}, {"out": err[-3000:]}, no_input=True)
+        return ck.finish()
     runf = os.path.join(WORK, "cases", "c09_run_%d.jsonl" % seed)
     with open(runf, "w") as f:
         for h in hs:
@@ -166,10 +311,12 @@ def run(tier, seed):
         h = byid[r["id"]]; p = h["pred"]; eng = r["engine"]
         if h.get("witness"):
             key = (h["witness"], "%s/%s%s" % (eng, "cached" if h["cached"] else "uncached", "/no-churn" if h.get("nochurn") else ""))
+            if h["witness"] == "MEMFREE": key = (h["witness"], "%s/%s" % (eng, h["probe"]))
             if r.get("crash"):
                 f08[key] = "crash at step %d: %s" % (r["step"], r["crash"])
             elif r["obs"][-1] != r["twin"][-1]:
-                f08[key] = "call_indirect returned %s, twin %s" % (r["obs"][-1], r["twin"][-1])
+                f08[key] = ("%s returned %s, twin %s" % ("load" if h["witness"] == "MEMFREE" else "call_indirect", r["obs"][-1], r["twin"][-1])) + \
+                           ("; Close: %s" % r["obs"][2] if h["witness"] == "MEMFREE" else "")
             else:
                 f08[key] = None
             continue
@@ -180,6 +327,8 @@ def run(tier, seed):
                                                         "crash": r["crash"], "tail": r.get("tail", "")[:1500], "history": brief})
             continue
         obs, twin = r["obs"], r["twin"]
+        mp = mpreds.get(h["id"])
+        if mp and eng == "compiler": mem_dist(h, obs, md)
         seen_close = seen_gc = False
         for i, (a, b) in enumerate(zip(obs, twin)):
             k = h["ops"][i][0]
@@ -190,12 +339,28 @@ def run(tier, seed):
             ordinary = a.startswith(ORDINARY)
             # the property on the observations alone: same as the twin, or an ordinary error
             if a != b and not ordinary:
-                viol("twin-diff", {"kind": "twin-diff", "engine": eng}, {"step": i, "op": h["ops"][i], "obs": a, "twin": b, "history": brief})
+                if k in ("mu", "mh", "leavem"):
+                    md.setdefault("diverging_steps", {}).setdefault(eng, 0); md["diverging_steps"][eng] += 1
+                    md.setdefault("diverging_histories", {}).setdefault(eng, [])
+                    if h["id"] not in md["diverging_histories"][eng]: md["diverging_histories"][eng].append(h["id"])
+                    # a use of a shared memory / global through some path differs from the twin that made the same calls without the closes
+                    viol("shared-memory-diverges", {"kind": "shared-memory-diverges", "engine": eng},
+                         {"step": i, "op": h["ops"][i], "obs": a, "twin": b, "symptom": mem_symptom(a, b),
+                          "model": mp[i] if mp else None, "history": brief})
+                else:
+                    viol("twin-diff", {"kind": "twin-diff", "engine": eng}, {"step": i, "op": h["ops"][i], "obs": a, "twin": b, "history": brief})
                 continue
             if a == b and not ordinary: dist["obs"]["same_as_twin"] += 1
             if ordinary: dist["obs"]["ordinary_error"] += 1
+            # LifetimeMem agreement: the value / trap / ordinary error of every memory step is the one the model computes
+            if mp and k in ("mu", "mh", "leavem"):
+                md["mem_steps_compared_with_model"] += 1
+                md["model_class"][{0: "value", 1: "ordinary_error", 2: "freed", 3: "trap_oob", 4: "no_result"}[mp[i][0]]] += 1
+                if not mem_agrees(mp[i], a):
+                    viol("model-differs", {"kind": "model-differs", "engine": eng, "model": "LifetimeMem"},
+                         {"step": i, "op": h["ops"][i], "obs": a, "twin": b, "pred": mp[i], "history": brief}, no_input=True)
             # model agreement (closes, drops and collections have no result to predict)
-            if k.startswith(("close", "drop")) or k in ("gc", "enter"): continue
+            if k.startswith(("close", "drop")) or k in ("gc", "enter", "mh"): continue
             if p[i] == 0 and a != b:
                 viol("model-differs", {"kind": "model-differs", "engine": eng}, {"step": i, "op": h["ops"][i], "obs": a, "twin": b, "pred": 0, "history": brief}, no_input=True)
             elif p[i] == 1 and not ordinary and not (a == b and a.startswith("e:")):
@@ -204,12 +369,18 @@ def run(tier, seed):
     ck.dist = dist
     ck.samples = [dict(ops=h["ops"][:14], pred=h["pred"][:14], cut=h.get("cut")) for h in hs[:3]]
     ck.extra["rule"] = ("histories generated from VERIF_SEED over 2-4 modules (exporter of functions and a table; importers with private tables / funcref globals; "
-                        "store-by-parameter imports), classified by the Coq model (vm_compute of Lifetime.classify), each executed on both engines in its own supervised "
-                        "child process next to a twin runtime in which nothing is closed; non-trivial = a call returns a value after a close/drop followed by a forced collection")
+                        "store-by-parameter imports; in two of three graphs a shared memory and a shared mutable i32 global: defined+exported by one module, imported (and re-exported) by later ones "
+                        "together with accessor functions msize/mload/mstore/mgrow/gget/gset of earlier modules; ops: use through own code / through an imported accessor of a possibly closed instance / by the host "
+                        "(api.Memory Size, Read, Write, Grow), grow after the definer is closed, in-flight continuations into memory code; 9 fixed closed-definer-then-grow histories), classified by the Coq model (vm_compute of Lifetime.classify), each executed on both engines in its own supervised "
+                        "child process next to a twin runtime in which nothing is closed; every memory step is also compared with the value computed by LifetimeMem.mclassify (vm_compute); non-trivial = a call returns a value after a close/drop followed by a forced collection")
     WIT = {"F08": (F08_SIG, "instantiate B; instantiate P importing B.st0; P.pass(ref.func P.f) -> B's private table; close P and its compiled module; drop; gc; B.call_indirect",
                    "Lifetime.classify predicts 2 (dereferences a collected record) at the last step; theorem C09_private_table_refuted"),
            "F08b": (F08B_SIG, "A exports a mutable funcref global g; B imports it and does global.set g (ref.func B.f); close B and its compiled module; drop; gc; A: table.set 0 (global.get g); call_indirect",
-                    "same class (a holder that does not track the definer: globals have no involvingModuleInstances); not generated in histories, fixed witness only")}
+                    "same class (a holder that does not track the definer: globals have no involvingModuleInstances); not generated in histories, fixed witness only"),
+           "MEMFREE": (MEMFREE_SIG, "experimental.WithMemoryAllocator (allocator backed by Go slices whose Free poisons the buffer with 0xdd); A defines+exports a memory, B imports it; A.store(8,111); "
+                       "close the IMPORTER B (alloc-importer) or the DEFINER A (alloc-definer); the other, live instance calls load(8)",
+                       "LifetimeMem under policy user_allocator (close frees the buffer of the memory the instance is bound to) predicts OFreed at the last step; theorem C09_allocator_close_frees_shared_memory_refuted; "
+                       "code: ModuleInstance.ensureResourcesClosed calls m.MemoryInstance.expBuffer.Free() although m.MemoryInstance may be imported / still imported by others")}
     for w, (sig, what, model) in WIT.items():
         rep = {k[1]: v for k, v in sorted(f08.items()) if k[0] == w}
         ck.extra[w + "_witness"] = rep
@@ -219,6 +390,6 @@ def run(tier, seed):
             ck.note("%s witness did NOT reproduce on either engine in this run: %s" % (w, json.dumps(rep)))
         for k, v in rep.items():
             if v is None: ck.note("%s witness not observed on %s (dangling memory not reused / still mapped in this run)" % (w, k))
-    if not proofs_ok and not [v for v in ck.violations if v["kind"] not in ("dangling-funcref-private-table", "dangling-funcref-imported-global")]:
+    if not proofs_ok and not [v for v in ck.violations if v["kind"] not in ("dangling-funcref-private-table", "dangling-funcref-imported-global", "shared-memory-freed-on-close")]:
         ck.violation("proof-broken", {"kind": "proof-broken"}, getattr(ck, "proof_failure", {}), no_input=True)
     return ck.finish()
